@@ -30,7 +30,7 @@ pub struct Case {
 /// entry points whose verdict is also computed by the Lean model (input ≤ 4 KiB)
 pub const MODEL_EPS: &[&str] = &["json", "csv", "mvt", "pmdir", "pmfind", "pmhdr", "vtblk", "vtbidx", "vttidx", "vthdr", "vpl", "pbfstr"];
 pub const ALL_EPS: &[&str] = &[
-	"json", "jsonstr", "tilejson", "csv", "buildcsv", "vpl", "build", "mvt", "pbfstr", "pmdir", "pmfind", "pmhdr", "vtblk", "vtbidx", "vttidx", "vthdr", "vt", "pm", "vtfile", "pmfile", "mb",
+	"json", "jsonstr", "tilejson", "csv", "buildcsv", "vpl", "vplfile", "build", "mvt", "pbfstr", "pmdir", "pmfind", "pmhdr", "vtblk", "vtbidx", "vttidx", "vthdr", "vt", "pm", "vtfile", "pmfile", "mb",
 	"tar", "dir",
 ];
 
@@ -255,6 +255,15 @@ pub fn eval(ctx: &mut Ctx, c: &Case) -> V {
 			Ok(s) => verdict_only(|| versatiles_pipeline::parse_vpl(s)),
 			Err(_) => V::Err,
 		},
+		"vplfile" => {
+			// a `.vpl` file opened as a container (`PipelineReader`): arbitrary bytes on disk
+			let p = ctx.fresh(".vpl");
+			std::fs::write(&p, b).unwrap();
+			let rt = &ctx.rt;
+			let v = open_and_look(rt, &c.probes, || rt.block_on(versatiles_container::PipelineReader::open_path(&p)));
+			let _ = std::fs::remove_file(&p);
+			v
+		}
 		"build" => {
 			let Ok(s) = std::str::from_utf8(b) else { return V::Err };
 			let dir = ctx.dir.clone();
